@@ -217,7 +217,9 @@ fn mutants(rng: &mut Rng, gp: &PragProblem, parsed: &PProblem, solution: &Value,
                 if max_load > 0 {
                     let mut p = gp.problem.clone();
                     p["fleet"]["vehicles"][tix]["capacity"][0] = json!(max_load - 1);
-                    push("load-above-capacity", format!("tour{ti}"), Some(p), solution.clone(), &mut out);
+                    // (a tour made of one single stop has no leg: the checker's leg based load rule never sees it)
+                    let kind = if stops.len() == 1 { "load-above-capacity|single-stop-tour" } else { "load-above-capacity|regular-tour" };
+                    push(kind, format!("tour{ti}"), Some(p), solution.clone(), &mut out);
                 }
             }
             // broken relation: a strict relation demanding the reverse order of two consecutive simple jobs, and an `any`
@@ -466,7 +468,7 @@ fn main() {
         }
     });
     run.floor("valid solutions given to the checker", run.observed("valid_solutions", "accepted") + run.observed("valid_solutions", "rejected"), run.by_tier(30, 300));
-    for class in ["load-misreported|regular-tour", "load-above-capacity", "unknown-job", "duplicated-job", "dropped-job", "job-split-over-tours", "assigned-and-unassigned", "arrival-mismatch",
+    for class in ["load-misreported|regular-tour", "load-above-capacity|regular-tour", "unknown-job", "duplicated-job", "dropped-job", "job-split-over-tours", "assigned-and-unassigned", "arrival-mismatch",
         "distance-mismatch", "tour-statistic-mismatch", "overall-statistic-mismatch", "limit-breach-distance", "limit-breach-duration", "limit-breach-tour-size",
         "relation-order-broken", "relation-vehicle-broken|pinned-vehicle-has-tour", "break-misplaced"] {
         let judged = run.observed("mutants_rejected", class) + run.observed("mutants_accepted", class) + run.observed("mutants_panicked", class);
